@@ -433,6 +433,14 @@ class ConcreteOfAbstract(AbstractNode):  # a concrete class below an abstract on
 ABSTRACT_SERIALIZERS = [AbstractNode, AbstractLeaf]
 
 
+class RegisteredNode(Node):  # a serializer class that ALSO has a registered deserializer (C19): `_from_json` wins
+    pass
+
+
+JSONSerializableTypeRegistry().register(
+    RegisteredNode, lambda obj: obj.to_json(), _mk_deser(RegisteredNode, lambda v: RegisteredNode(value=v)))
+
+
 def implements_from_json(cls) -> bool:
     return getattr(cls._from_json, "__func__", None) is not SubclassJSONSerializer._from_json.__func__
 
